@@ -76,6 +76,11 @@ type Config struct {
 	// C04: decode durable images at every ack.
 	ImageAtAck int `json:"image_at_ack"` // 0 never, 1 sampled, 2 always
 
+	// Scenario: a biased shape driven by a dedicated task ("lagging-voter": a voter falls behind
+	// behind a partition, the leadership changes meanwhile, then the new leader reaches the
+	// lagging voter only over a flaky link while another voter cannot hear the leader at all).
+	Scenario string `json:"scenario,omitempty"`
+
 	// Thorough selects the deeper variant of a profile (disk engine: all byte offsets).
 	Thorough bool `json:"thorough"`
 
